@@ -187,7 +187,11 @@ def dequant(vals, t):
     zp = np.array(qz.zeroPoint, dtype=np.float64) if qz.zeroPoint is not None else np.zeros_like(scale)
     shape = [int(x) for x in t.shape]
     v = vals.reshape(shape).astype(np.float64) if shape else vals.astype(np.float64)
+    if len(zp) != len(scale):
+        raise ValueError(f"{len(scale)} scales but {len(zp)} zero points")
     if len(scale) > 1:
+        if not (0 <= qz.quantizedDimension < len(shape)) or shape[qz.quantizedDimension] != len(scale):
+            raise ValueError(f"{len(scale)} scales for quantized dimension {qz.quantizedDimension} of shape {shape}")
         bshape = [1] * len(shape)
         bshape[qz.quantizedDimension] = len(scale)
         scale, zp = scale.reshape(bshape), zp.reshape(bshape)
@@ -224,7 +228,10 @@ def oracle_c05(ctx, case, res, fail):
             qz = cur.quantization
             if qz is None or qz.scale is None or len(qz.scale) == 0:
                 return fail("integer constant without quantization parameters: " + where, "const-no-params")
-            deq, scale = dequant(vals, cur)
+            try:
+                deq, scale = dequant(vals, cur)
+            except ValueError as e:
+                return fail(f"quantization parameters do not fit the tensor: {e}: " + where, "const-params-shape")
             shape = [int(x) for x in orig.shape]
             o = ovals.reshape(shape) if shape else ovals
             sym = all(int(z) == 0 for z in (qz.zeroPoint if qz.zeroPoint is not None else [0]))
